@@ -450,58 +450,76 @@ def h_printers_reach(h: str) -> bool:
 
 
 # ------------------------------------------------------------------ senders stamp the hash into header.version
-def stamp(type_hash, signal_type, as_signal):
+def stamp(hash1, hash2, signal_type, first_signal, second_signal):
+    """two consecutive sends of one client (message or bare signal each): every outgoing header carries the hash of ITS
+    definition (0 for a bare signal), whatever was sent before it.  Headers are snapshotted at send time."""
     from engine import cliworld as CW
     from pyrtma import core_defs as cd
     c = CW.new_client(module_id=12)
     sent = []
-    c._sendall = lambda buf: sent.append(buf)
+
+    def rec(buf):
+        real = getattr(type(buf), "_real", type(buf))
+        if issubclass(real, CW.MessageHeader):
+            sent.append(("H", buf._reserved, buf._msg_type, buf._num_data_bytes))
+        else:
+            sent.append(("P",))
+
+    c._sendall = rec
 
     class FakeSock:
         def close(self):
             pass
     c._sock = FakeSock()
+    plan = [(first_signal, hash1), (second_signal, hash2)]
     try:
-        if as_signal:
-            c.send_signal(signal_type)
-        else:
-            data = CW.SH.shadow_of(cd.MDF_MODULE_READY)() if CW.SHADOW else cd.MDF_MODULE_READY()
-            # the class attribute the generated code carries: any 32-bit value
-            type(data).type_hash = type_hash
-            try:
-                c.send_message(data)
-            finally:
-                type(data).type_hash = cd.MDF_MODULE_READY.type_hash
+        for as_signal, th in plan:
+            if as_signal:
+                c.send_signal(signal_type)
+            else:
+                data = CW.SH.shadow_of(cd.MDF_MODULE_READY)() if CW.SHADOW else cd.MDF_MODULE_READY()
+                # the class attribute the generated code carries: any 32-bit value
+                type(data).type_hash = th
+                try:
+                    c.send_message(data)
+                finally:
+                    type(data).type_hash = cd.MDF_MODULE_READY.type_hash
     finally:
         c._connected = False
-    if not sent:
-        return False, "nothing was sent"
-    h = sent[0]
-    if as_signal:
-        if h._reserved != 0 or h._msg_type != signal_type:
-            return False, "send_signal must leave the version field 0"
-    else:
-        if h._reserved != type_hash:
-            return False, "header.version is not the message definition's hash"
-        if h._msg_type != cd.MT_MODULE_READY or h._num_data_bytes != 4 or len(sent) != 2:
-            return False, "frame is not header + payload of the definition"
+    k = 0
+    for n, (as_signal, th) in enumerate(plan):
+        if k >= len(sent) or sent[k][0] != "H":
+            return False, "send %d: no header was written" % n
+        _, ver, mt, nb = sent[k]
+        if as_signal:
+            if ver != 0 or mt != signal_type or nb != 0:
+                return False, "send %d: send_signal must leave the version field 0 (and declare no payload)" % n
+            k += 1
+        else:
+            if ver != th:
+                return False, "send %d: header.version is not the message definition's hash" % n
+            if mt != cd.MT_MODULE_READY or nb != 4 or k + 1 >= len(sent) or sent[k + 1][0] != "P":
+                return False, "send %d: frame is not header + payload of the definition" % n
+            k += 2
+    if k != len(sent):
+        return False, "more was written than the two frames"
     return True, ""
 
 
-def h_stamp(type_hash: int, signal_type: int, as_signal: bool) -> bool:
+def h_stamp(hash1: int, hash2: int, signal_type: int, first_signal: bool, second_signal: bool) -> bool:
     """
-    pre: 0 <= type_hash < 2**32 and -2**31 <= signal_type < 2**31
+    pre: 0 <= hash1 < 2**32 and 0 <= hash2 < 2**32 and -2**31 <= signal_type < 2**31
     post: _
     """
-    return verdict(stamp(type_hash, signal_type, as_signal))
+    return verdict(stamp(hash1, hash2, signal_type, first_signal, second_signal))
 
 
-def h_stamp_reach(type_hash: int, signal_type: int, as_signal: bool) -> bool:
+def h_stamp_reach(hash1: int, hash2: int, signal_type: int, first_signal: bool, second_signal: bool) -> bool:
     """
-    pre: 0 <= type_hash < 2**32 and -2**31 <= signal_type < 2**31
+    pre: 0 <= hash1 < 2**32 and 0 <= hash2 < 2**32 and -2**31 <= signal_type < 2**31
     post: _
     """
-    return reached(stamp(type_hash, signal_type, as_signal))
+    return reached(stamp(hash1, hash2, signal_type, first_signal, second_signal))
 
 
 # ------------------------------------------------------------------ known finding witness, through the real YAML front end
